@@ -1,6 +1,8 @@
 // Package htmldoc provides HTML document parsing.
 package htmldoc
 
+import "strings"
+
 // parsedElement represents a parsed element from the HTML document.
 type parsedElement struct {
 	Type    ElementType
@@ -114,18 +116,19 @@ func (t *ParsedTable) ToMarkdown() string {
 // escapeMarkdown escapes special markdown characters in text.
 func escapeMarkdown(text string) string {
 	// Replace pipe characters which break markdown tables
-	result := ""
+	var result strings.Builder
+	result.Grow(len(text))
 	for _, r := range text {
 		switch r {
 		case '|':
-			result += "\\|"
+			result.WriteString("\\|")
 		case '\n':
-			result += " "
+			result.WriteString(" ")
 		case '\r':
 			// Skip
 		default:
-			result += string(r)
+			result.WriteRune(r)
 		}
 	}
-	return result
+	return result.String()
 }
